@@ -334,6 +334,9 @@ package main
 //@   ensures forall k int :: 0 <= k && k < len(gsfaReaders) && k < len(result1) ==> gsfaReaders[k] != nil && readerOfSet(ser, gsfaReaders[k], result1[k])
 //@   ensures forall i, j int :: 0 <= i && i < j && j < len(result1) ==> result1[i] >= result1[j]
 //@   loop 0 invariant forall a int :: 0 <= a && a < len(epochs) ==> epochs[a] != nil && inEpochSet(ser, epochs[a])
+//@   # C07 completeness of the epoch selection (nothing that lies in the slot range is left out): every loaded epoch whose
+//@   # number lies between the epochs of startSlot and endSlot is among the selected ones
+//@   loop 0 invariant forall q uint64 :: visited0(q) && ser.epochs[q] != nil && slottools.CalcEpochForSlot(startSlot) <= ser.epochs[q].epoch && ser.epochs[q].epoch <= slottools.CalcEpochForSlot(endSlot) ==> exists a int :: 0 <= a && a < len(epochs) && epochs[a] == ser.epochs[q]
 //@   loop 1 invariant len(gsfaReaders) == len(epochNums) && 0 <= rangeidx1 && rangeidx1 <= len(epochs)
 //@   loop 1 invariant forall a int :: 0 <= a && a < len(epochs) ==> epochs[a] != nil && inEpochSet(ser, epochs[a])
 //@   loop 1 invariant forall a int :: 0 <= a && a < len(gsfaReaders) ==> gsfaReaders[a] != nil && readerOfSet(ser, gsfaReaders[a], epochNums[a])
